@@ -98,12 +98,12 @@ func presetFor(c *Ctx, id string, i int) *HistOpts {
 		o.Gen.NVal = int(o.Params.MaxValidatorCnt)
 	}
 	if !c.Quick() && i == 7 && (id == "C04" || id == "C02") {
-		// thorough only: one history whose process sees ~75000 distinct accounts before the usual mixed traffic goes on
+		// thorough only: one history whose process sees ~140000 distinct accounts (more than 2^17) before the usual mixed traffic goes on
 		o.Gen.NReserved = 6
 		o.Gen.W["replay"] = 30
-		o.Blocks = 45
+		o.Blocks = 50
 		o.Params.GasPrice, o.Params.MinTrxGas = "1", 10
-		withScenarios(o, scenMassPopulation(2, 15, 5000))
+		withScenarios(o, scenMassPopulation(2, 28, 5000))
 		o.Mempool, o.RestartPermille = 0, 0
 		return o
 	}
